@@ -24,7 +24,7 @@ members to typed unknowns true of the replaced part.
 import CtyModel.Props.C11
 import CtyModel.Lemmas.CoversWeaken
 import CtyModel.Lemmas.C12Funcs
-import CtyModel.Lemmas.d12bContains
+import CtyModel.Lemmas.d12bElement
 namespace CtyModel
 namespace C12
 open Fn Std
@@ -582,6 +582,37 @@ theorem sound_contains_needle (E : Stdlib.Env) (oa on wn r : Value)
     (fun eo he => ⟨eo, he, D12b.eqPairs_refl_of eo (hEq eo he), D12b.elems_clean_all E hmoa he,
       D12b.elems_clean_all E hmoa he⟩) hrwf hrefl hr
 
+/-- **`element`** (`list[index mod length]`): the list or tuple is known at the top with weakened members, the
+index is a known number (both parameters refuse unknowns, so anything else is the framework's short-circuit);
+the member picked is the weakening of the concrete member — through C01 `sound_index`. -/
+theorem sound_element (o w oi wi r : Value) (hk : o.whollyKnown = true) (hki : oi.whollyKnown = true)
+    (hfo : o.wfc = true) (hfw : w.wfc = true)
+    (hmo : o.containsMarked = false) (hmw : w.containsMarked = false)
+    (hmoi : oi.containsMarked = false) (hmwi : wi.containsMarked = false) (hleaf : oi.v.isLeaf = true)
+    (hty : w.ty = o.ty ∨ w.ty.isDyn = true) (htyi : wi.ty = oi.ty ∨ wi.ty.isDyn = true)
+    (hc : CoversX w o = true) (hci : CoversX wi oi = true)
+    (hTw : ∀ t, Stdlib.elementType [w, wi] = .ok t → Ty.wf t = true)
+    (hrwf : Ty.wf r.ty = true) (hrefl : Covers r r = true)
+    (hr : (callUnrefined Stdlib.elementSpec Stdlib.elementType Stdlib.elementImpl [o, oi]).1 = .ok r) :
+    ∃ r', (callUnrefined Stdlib.elementSpec Stdlib.elementType Stdlib.elementImpl [w, wi]).1 = .ok r' ∧
+      Covers r' r = true := by
+  refine impl_soundness_lifts_to_call _ _ _ [o, oi] [w, wi] r ?_ hTw
+    (by intro a ha; simp at ha; rcases ha with rfl | rfl <;> exact C12L.whollyKnown_isKnown (by assumption))
+    (by intro a ha; simp at ha; rcases ha with rfl | rfl <;> assumption)
+    (by intro a ha; simp at ha; rcases ha with rfl | rfl <;> assumption)
+    (by simp [coversAll, hc, hci]) ⟨hty, htyi, trivial⟩ hrwf hrefl ?_ hr
+  · intro hp
+    obtain ⟨h1, h2⟩ := D12b.two_args_pass (spec := Stdlib.elementSpec) rfl rfl rfl hp hty htyi
+    by_cases hkwi : wi.isKnown = true
+    · exact D12b.elementType_mono h1 (Or.inl (D12b.leaf_eq hmwi hmoi h2 hci hkwi hleaf))
+    · exact D12b.elementType_mono h1 (Or.inr (by simpa using hkwi))
+  · intro hp hri
+    obtain ⟨h1, h2⟩ := D12b.two_args_pass (spec := Stdlib.elementSpec) rfl rfl rfl hp hty htyi
+    obtain ⟨hkw, hkwi⟩ := D12b.two_args_known (spec := Stdlib.elementSpec) rfl rfl rfl hri
+    have := D12b.leaf_eq hmwi hmoi h2 hci hkwi hleaf
+    subst this
+    exact D12b.element_implSound o w wi h1 hk hfo hfw hmo hmw hkw hc
+
 /-! ### the hypotheses are satisfiable -/
 
 example : TypeMonoW (C11.staticType (.list .string)) := static_typeMonoW _
@@ -730,5 +761,12 @@ example : ∃ r', (callUnrefined Stdlib.containsSpec Stdlib.containsType (Stdlib
 /-- and what the model answers there: unknown, not False -/
 example : (callUnrefined Stdlib.containsSpec Stdlib.containsType (Stdlib.containsImpl {}) [exHay, exNeedleW]).1 =
     .ok (Value.unknown .bool) := by rfl
+/-- `element(["a","b"], 2)` (index 2 mod 2 = 0) with the first element unknown: the unknown string -/
+example : ∃ r', (callUnrefined Stdlib.elementSpec Stdlib.elementType Stdlib.elementImpl [exLw, Value.intVal 2]).1 = .ok r' ∧
+    Covers r' ⟨.string, .s "a"⟩ = true :=
+  sound_element exL exLw (Value.intVal 2) (Value.intVal 2) ⟨.string, .s "a"⟩ (by decide) (by decide) (by decide) (by decide)
+    (by decide) (by decide) (by decide) (by decide) (by decide) (Or.inl rfl) (Or.inl rfl) (by decide) (by decide)
+    (by intro t h; have e : Stdlib.elementType [exLw, Value.intVal 2] = .ok .string := rfl; rw [e] at h; cases h; rfl)
+    (by decide) (by decide) (by rfl)
 end C12
 end CtyModel
